@@ -15,7 +15,7 @@ RULE = ("uplink frames built from Annex 10 field layouts with the address/parity
         "UF4/5/20/21: RR(32) x DI(8) x SD (16 bits: all single bits, 0, 0xFFFF and random; exhaustive per DI in the thorough tier) with the rest random; "
         "every UF 0..31. Oracle: the encoded UF/RR/DI/RRS/PR/IC/LOS/LSS values; uplink_fields must agree with the single-field functions. "
         "non-trivial = address and payload non-zero, or any non-zero control field"
-        ' Also: every call repeated (the same interrogation is seen again and again) and the dict returned by uplink_fields kept while another interrogation is decoded, 40 000 / 1.2 million distinct interrogations in a row in one process with identical frames coming back after 4 100 ... 1 050 000 others (leg volume), the first calls of a freshly imported package made by four threads at once (leg first_use).')
+        ' Also: every call repeated (the same interrogation is seen again and again) and the dict returned by uplink_fields kept while another interrogation is decoded, 40 000 / 1.2 million distinct interrogations in a row in one process with identical frames coming back after 4 100 ... 1 050 000 others (leg volume), the first calls of a freshly imported package made by four threads at once (leg first_use), boundary addresses (FFFFFF broadcast) in every context.')
 ASSUMPTIONS = ["SD sub-fields per Annex 10 Vol IV 3.1.2.6.1.4.1: IIS 17-20 (DI 0,1,7), RRS 21-24 and LOS 26 (DI 7), LOS 26 (DI 1), SIS 17-22, LSS 23, RRS 24-27 (DI 3)",
                "interrogator code for CL 5-7 and for DI 2,4,5,6 is unconstrained", "'' and None both count as 'no value' in uplink_fields"]
 
